@@ -597,6 +597,23 @@ def pstep (s : PS) : Op → PS
 
 def prun (s : PS) (ops : List Op) : PS := ops.foldl pstep s
 
+/-- `nested d mid`: the operations `mid` only complete (`deliver`) Writes that were started inside `mid`
+    (`d` of them are still in flight) and finish them all — anything else may happen: other loggers logging, a
+    re-entrant sink, With-clones, checked entries, stack captures, scratch buffers, GC cycles -/
+def nested : Nat → List Op → Bool
+  | d, [] => d == 0
+  | d, .encJson _ _ :: r => nested (d + 1) r
+  | d, .encConsole _ _ :: r => nested (d + 1) r
+  | d, .deliver i :: r => decide (i < d) && nested (d - 1) r
+  | d, .withClone _ _ :: r => nested d r
+  | d, .peek _ :: r => nested d r
+  | d, .check _ _ _ _ _ :: r => nested d r
+  | d, .errElem _ _ :: r => nested d r
+  | d, .capture _ _ :: r => nested d r
+  | d, .scratch _ :: r => nested d r
+  | d, .ctxPanic _ _ :: r => nested d r
+  | d, .gc _ :: r => nested d r
+
 /-! ### the invariant of the heap machine -/
 
 /-- the buffers in `owned` are allocated, pairwise distinct and not in the pool; the pool has no duplicates -/
